@@ -608,6 +608,94 @@ def r30_iter_mut_enumerate_take(text):
         text = (text[:m.start()] + f'{ind}for {i} in 0..(if {cnt} < {x}.len() {{ {cnt} }} else {{ {x}.len() }}) {{' + body2 + text[toks[cb].start:])
 
 
+def r31_iter_mut_enum_fields(text):
+    """`for G in X.iter_mut() { let (A, B) = match G { C1(A, B) => (A, B), C2(A, B) => (A, B), }; BODY }` with A, B used in BODY only as
+    `*A`, `*B` => `for m__N in 0..X.len() { let (mut A, mut B) = match X[m__N] { C1(A, B) => (A, B), C2(A, B) => (A, B), }; BODY[*A := A,
+    *B := B] X[m__N] = match X[m__N] { C1(_, _) => C1(A, B), C2(_, _) => C2(A, B), }; }`: the two mutable field borrows become mutable
+    copies that are written back to the element at the end of the body (Verus cannot specify IterMut nor borrows into enum fields)."""
+    n = 0
+    while True:
+        m = re.search(r'(?m)^([ \t]*)for (\w+) in ((?:\w+\.)*\w+)\.iter_mut\(\) \{[ \t]*\n([ \t]*)let \((\w+), (\w+)\) = match \2 \{((?:\s*[\w:]+\(\5, \6\) => \(\5, \6\),)+)\s*\};', text)
+        if not m:
+            return text, n
+        ind, g, x, ind2, a, b, arms = m.groups()
+        toks = lex(text)
+        ob = next(k for k, t in enumerate(toks) if t.text == '{' and t.start >= m.start() and t.end <= m.start() + len(m.group(0)) and text[t.start - 1] == ' ' and toks[k - 1].text == ')')
+        cb = match_close(toks, ob)
+        body = text[m.end():toks[cb].start]
+        for v in (a, b):
+            if re.search(r'(?<![*\w])' + re.escape(v) + r'\b', body):
+                raise Unsupported('R31: field borrow used other than as *' + v)
+        ctors = re.findall(r'([\w:]+)\(' + a + ', ' + b + r'\) =>', arms)
+        n += 1
+        i = f'm__{n}'
+        body2 = re.sub(r'\*(' + re.escape(a) + '|' + re.escape(b) + r')\b', r'\1', body)
+        head = m.group(0)
+        head2 = head.replace(f'for {g} in {x}.iter_mut() {{', f'for {i} in 0..{x}.len() {{', 1)
+        head2 = head2.replace(f'let ({a}, {b}) = match {g} {{', f'let (mut {a}, mut {b}) = match {x}[{i}] {{', 1)
+        wb = f'{x}[{i}] = match {x}[{i}] {{ ' + ' '.join(f'{c}(_, _) => {c}({a}, {b}),' for c in ctors) + ' }; '
+        text = text[:m.start()] + head2 + body2.rstrip(' \t') + wb + text[toks[cb].start:]
+
+
+def r32_iter_mut_plain(text):
+    """`for W in X.iter_mut() { .. *W .. }` (X a field path, W only used as `*W`) => `for u__N in 0..X.len() { .. X[u__N] .. }`"""
+    n = 0
+    while True:
+        m = re.search(r'(?m)^([ \t]*)for (\w+) in ((?:\w+\.)*\w+)\.iter_mut\(\) \{[ \t]*$', text)
+        if not m:
+            return text, n
+        ind, w, x = m.groups()
+        toks = lex(text)
+        ob = max(k for k, t in enumerate(toks) if t.text == '{' and t.end <= m.end())
+        cb = match_close(toks, ob)
+        body = text[toks[ob].end:toks[cb].start]
+        if re.search(r'(?<![*\w])' + re.escape(w) + r'\b', body):
+            raise Unsupported('R32: iter_mut element used other than as *' + w)
+        n += 1
+        i = f'u__{n}'
+        body2 = re.sub(r'\*' + re.escape(w) + r'\b', f'{x}[{i}]', body)
+        text = text[:m.start()] + f'{ind}for {i} in 0..{x}.len() {{' + body2 + text[toks[cb].start:]
+
+
+def r22b_extend_array_iter(text):
+    """`V.extend(X.iter());` (X an array of usize) => `vec_extend_arr(&mut V, &X);` (a verified loop of pushes defined in the template)."""
+    n = 0
+    while True:
+        m = re.search(r'(?m)^([ \t]*)(\w+)\.extend\(((?:\w+\.)*\w+)\.iter\(\)\);[ \t]*$', text)
+        if not m:
+            return text, n
+        n += 1
+        ind, v, x = m.groups()
+        text = text[:m.start()] + f'{ind}vec_extend_arr(&mut {v}, &{x});' + text[m.end():]
+
+
+def r16b_into_iter_map_block_collect(text):
+    """tail expression `X .into_iter() .map(|V| { BLOCK }) .collect()` (one segment per line, X a Vec of a Copy type), also bound by
+    `let NAME = ..;` => `let mut o__bN = Vec::new(); for b__N in 0..X.len() { let V = X[b__N]; o__bN.push({ BLOCK }); } o__bN`
+    (resp. `.. let NAME = o__bN;`)"""
+    n = 0
+    while True:
+        m = re.search(r'(?m)^([ \t]*)(?:let (\w+) = )?(\w+)\s*\.into_iter\(\)\s*\.map\(\|(\w+)\| \{', text)
+        if not m:
+            return text, n
+        ind, name, x, v = m.groups()
+        toks = lex(text)
+        ob = next(k for k, t in enumerate(toks) if t.text == '{' and t.end == m.end())
+        cb = match_close(toks, ob)
+        rest = text[toks[cb].end:]
+        m2 = re.match(r'\)\s*\.collect\(\)' + (r';' if name else ''), rest)
+        if not m2:
+            raise Unsupported('R16b: map(..) is not followed by .collect()')
+        n += 1
+        i = f'b__{n}'
+        block = text[toks[ob].start:toks[cb].end]
+        nl_head = text[m.start():toks[ob].start].count('\n')
+        nl_tail = m2.group(0).count('\n')
+        fin = f' let {name} = o__b{n};' if name else f' o__b{n}'
+        new = (f'{ind}let mut o__b{n} = Vec::new(); for {i} in 0..{x}.len() {{ let {v} = {x}[{i}]; ' + '\n' * nl_head + f'o__b{n}.push(' + block + '); }' + '\n' * nl_tail + fin)
+        text = text[:m.start()] + new + rest[m2.end():]
+
+
 def r10_windows2(text):
     """`for W in X.windows(2) {` => `for w__N in 0..(if X.len() >= 2 { X.len() - 1 } else { 0 }) { let W = [X[w__N], X[w__N + 1]];`
     (Verus has no specification of slice::Windows; for Copy elements W[0], W[1] read the same values)."""
@@ -669,7 +757,7 @@ def r7_param_patterns(text):
     return _apply_edits(text, edits), n
 
 
-RULES = [('R0', r0_visibility_and_stats), ('R1', r1_ref_patterns), ('R7', r7_param_patterns), ('R28', r28_mut_self), ('R8', r8_assert_eq), ('R9', r9_subslice_copy), ('R10', r10_windows2), ('R11', r11_collect), ('R12', r12_subslice_to_subslice), ('R13', r13_copied_take), ('R15', r15_iter_all_eq), ('R16', r16_map_collect_tail), ('R17', r17_match_arm_ref_guard), ('R18', r18_bool_bitand), ('R20', r20_iter_skip), ('R21', r21_let_map_collect), ('R21b', r21b_let_chain_map_collect), ('R29', r29_map_index), ('R22', r22_vec_extend), ('R23', r23_range_copy), ('R24', r24_opaque_iter), ('R25', r25_iter_sum), ('R26', r26_slice_iters), ('R27', r27_add_assign_ref), ('R30', r30_iter_mut_enumerate_take),
+RULES = [('R0', r0_visibility_and_stats), ('R1', r1_ref_patterns), ('R7', r7_param_patterns), ('R28', r28_mut_self), ('R8', r8_assert_eq), ('R9', r9_subslice_copy), ('R10', r10_windows2), ('R11', r11_collect), ('R12', r12_subslice_to_subslice), ('R13', r13_copied_take), ('R15', r15_iter_all_eq), ('R16', r16_map_collect_tail), ('R17', r17_match_arm_ref_guard), ('R18', r18_bool_bitand), ('R20', r20_iter_skip), ('R21', r21_let_map_collect), ('R21b', r21b_let_chain_map_collect), ('R29', r29_map_index), ('R22b', r22b_extend_array_iter), ('R22', r22_vec_extend), ('R23', r23_range_copy), ('R24', r24_opaque_iter), ('R25', r25_iter_sum), ('R26', r26_slice_iters), ('R27', r27_add_assign_ref), ('R30', r30_iter_mut_enumerate_take), ('R31', r31_iter_mut_enum_fields), ('R32', r32_iter_mut_plain), ('R16b', r16b_into_iter_map_block_collect),
          ('R2', r2_array_literal_loops), ('R3', r3_zip_enumerate)]
 
 
